@@ -132,23 +132,21 @@ theorem loop1_tie (id : List UInt8) : ∀ (n s : Nat) (L : UInt8 × UInt8 × UIn
       have := ih (s + 1) (laneStep L s id[s]) (by omega)
       simpa [Int.zero_add] using this
 
-/-- **preHash**: the translated function never panics and computes the model's checksum -/
+/-- **preHash**: the translated function never panics and computes the model's checksum (both loops are in the
+    canonical range form: the translator turns `for i := 0; i < len(id); i++ { … id[i] … }` into it) -/
 theorem preHash_tie (id salt : List UInt8) : Code.preHash id salt = some (Replay.preHash id salt) := by
   unfold Code.preHash Replay.preHash
-  have h1 := loop1_tie id id.length 0 (0, 0, 0, 0) (by omega)
-  have hr : rangeInt 0 (len id) = (List.range' 0 id.length).map (fun (k : Nat) => (0 : Int) + (k : Int)) := by
-    simp [rangeInt, len, List.range_eq_range']
-  have h0 : (List.replicate 4 (0 : UInt8)) = toL (0, 0, 0, 0) := rfl
+  have h1 := loop2_tie id (0, 0, 0, 0) 0
   have h2 := loop2_tie salt (foldLanes (0, 0, 0, 0) id) 0
-  simp only [Option.bind_eq_bind, List.drop_zero] at h1 h2
-  simp only [hr, h0, Option.bind_eq_bind, enum]
+  have h0 : (List.replicate 4 (0 : UInt8)) = toL (0, 0, 0, 0) := rfl
+  simp only [Option.bind_eq_bind] at h1 h2
+  simp only [h0, Option.bind_eq_bind, enum]
   rw [h1]
   simp only [Option.bind_some]
   rw [h2]
   simp only [Option.bind_some]
   obtain ⟨l0, l1, l2, l3⟩ := foldLanes (foldLanes (0, 0, 0, 0) id) salt
   rfl
-
 
 theorem capsGE_map_add (N : Nat) (l : List (List UInt8 × List UInt8)) :
     capsGE N (l.map fun p => Op.add (Replay.preHash p.1 p.2)) := by
